@@ -448,12 +448,12 @@ fn main() {
     let args = parse_args();
     let mut rng = Rng::new(args.seed);
     let thorough = args.tier == "thorough";
-    let mut cases = Cases::new("From V Require Import Base.Util Gql.Ast Writer.Wop Ts.TsType C10.Model C10.Corr.", "case", "agree", "holds", if thorough { 24 } else { 12 });
+    let mut cases = Cases::new("From V Require Import Base.Util Gql.Ast Writer.Wop Ts.TsType C10.Model C10.Corr.", "case", "agree", "holds", 5);
     let mut distinct: HashSet<String> = HashSet::new();
     let mut dist: BTreeMap<String, u64> = BTreeMap::new();
     let mut bump = |k: &str| { *dist.entry(k.to_string()).or_insert(0) += 1; };
-    let n_valid = if thorough { 2500 } else { 260 };
-    let n_malformed = if thorough { 500 } else { 60 };
+    let n_valid = if thorough { 2500 } else { 220 };
+    let n_malformed = if thorough { 500 } else { 50 };
     let mut samples: Vec<J> = vec![];
     for i in 0..(n_valid + n_malformed) {
         let malformed = i >= n_valid;
@@ -467,7 +467,7 @@ fn main() {
         bump(if valid { "schemas-valid" } else { "schemas-invalid" });
         if !valid && !malformed { bump("unexpected-invalid-in-valid-stream"); }
         let mut sruns = vec![]; let mut sj = vec![];
-        let n_s = if thorough { 3 } else { 3 };
+        let n_s = if thorough || i % 3 == 0 { 3 } else { 2 };
         for _ in 0..n_s {
             let o = schema_opts(&mut rng, &b, malformed);
             let (term, j, text) = run_schema(&doc, &o);
@@ -497,8 +497,9 @@ fn main() {
         if samples.len() < 3 && i % 97 == 0 { samples.push(d.clone()); }
         cases.push(format!("CDoc {} {} [{}] [{}]", coq_bool(valid), ast_coq::tsdoc(&doc), sruns.join("; "), rruns.join("; ")), d);
     }
-    // jsdoc on its own: fixed pool + random strings over an adversarial alphabet
-    let n_js = if thorough { 6000 } else { 700 };
+    // jsdoc on its own: fixed pool + random strings over an adversarial alphabet, packed 70 per case
+    let n_js = if thorough { 7000 } else { 1050 };
+    let mut batch: Vec<(String, String)> = vec![]; let mut batch_j: Vec<J> = vec![];
     for i in 0..n_js {
         let d = if i < ODD_DESCRIPTIONS.len() { ODD_DESCRIPTIONS[i].to_string() } else { odd_description(&mut rng) };
         let mut w = Rec::new();
@@ -506,7 +507,12 @@ fn main() {
         if d.contains("*/") { bump("jsdoc:contains-close"); }
         bump("jsdoc");
         distinct.insert(format!("jsdoc|{d}"));
-        cases.push(format!("CJsdoc {} {}", coq_str(&d), ops_coq(&w.coalesced())), json!({"kind": "jsdoc", "description": d, "text": w.text()}));
+        batch.push((coq_str(&d), ops_coq(&w.coalesced())));
+        batch_j.push(json!({"description": d, "text": w.text()}));
+        if batch.len() == 70 || i + 1 == n_js {
+            cases.push(format!("CJsdoc {}", coq_list(&batch, |(d, o)| format!("({d}, {o})"))), json!({"kind": "jsdoc", "items": batch_j}));
+            batch.clear(); batch_j = vec![];
+        }
     }
     // jsdoc cases are cheap: they share shards with the documents; keep shard size moderate
     cases.write(&args.out);
